@@ -553,6 +553,8 @@ class Parser:
                 consolidated[-1].end_col_offset = p.end_col_offset
             else:
                 consolidated.append(p)
+        # like CPython, an f-string has no node for empty literal text: f'' '', '' f'{x}'
+        consolidated = [p for p in consolidated if not (isinstance(p, ast.Constant) and p.value == "")]
 
         if not seen_joined and len(values) == 1 and isinstance(values[0], ast.Constant):
             node: ast.Constant | ast.JoinedStr | ast.Call = values[0]
